@@ -120,14 +120,15 @@ PROPS = {
         "assumptions": COMMON_ASSUME,
     },
     "C19": {
-        "rules": ["R-MIRROR", "R-EXTENT", "R-DISPATCH", "R-SAVEPURE"],
+        "rules": ["R-MIRROR", "R-EXTENT", "R-DISPATCH", "R-SAVEPURE", "R-CONSTPURE"],
         "explanation": "ONLY the last clause of the property (`the answers are unchanged after save/load`) is addressed, and only structurally: "
                        "writer/reader agreement, allocation extents, tag dispatch, save purity and element-to-field restoration for the bundled classes "
                        "the dictionaries persist and for the variants named in the property (BitSequenceRG/RRR/SDArray/DArray/375, WaveletTree, "
                        "WaveletTreeNoptrs, their nodes, coders and mappers). The core of the property - rank/select/access equal their definitions - "
                        "is value-level and NOT decided.",
         "decided": ["save/load element-by-element agreement of every bundled class in the cone (R-MIRROR)", "allocation = saved extent (R-EXTENT)",
-                    "family dispatchers have an arm for every persisted class and the right tag (R-DISPATCH)", "save writes nothing but the stream (R-SAVEPURE)"],
+                    "family dispatchers have an arm for every persisted class and the right tag (R-DISPATCH)", "save writes nothing but the stream (R-SAVEPURE)",
+                    "const query methods of the bundled structures write no object state and no global, so an answer cannot depend on earlier queries (R-CONSTPURE)"],
         "not_decided": ["access/rank/select agree with their plain definitions for every bit vector, sampling parameter and alphabet: the core of the property (value-level)",
                         "state recomputed at load (RRR sampling, RG rank directory) equals the built state"],
         "assumptions": COMMON_ASSUME,
